@@ -455,7 +455,9 @@ impl<'a> IExec<'a> {
             let only_hub_addr = reasons == vec!["source-address-not-hub-address"];
             let cls = if only_hub_addr { "its.execute/source-address-not-hub-address".to_string() } else { format!("inbound/acted-on:{}", reasons[0]) };
             let tags: &[&'static str] = match reasons[0] {
-                "token-id-already-registered" | "unrepresentable-metadata" | "undecodable-minter" => &["C04", "C11"],
+                // re-deploying under a taken id changes which token moves under that id: custody and supply (C05) rest on it
+                "token-id-already-registered" => &["C04", "C11", "C05"],
+                "unrepresentable-metadata" | "undecodable-minter" => &["C04", "C11"],
                 "undecodable-or-unsupported-payload" | "not-a-receive-from-hub-wrapper" => match kind_tag {
                     "C11" => &["C04", "C10", "C11"],
                     _ => &["C04", "C10", "C05"],
